@@ -36,15 +36,18 @@ TCHAR = set(b"!#$%&'*+-.^_`|~") | set(range(48, 58)) | set(range(65, 91)) | set(
 DIGITS = set(range(48, 58))
 BAD_VALUE = set(range(0, 9)) | set(range(10, 32)) | {127}
 
-TRANSLATE_FALLBACK = ("every fact read here decides which header lists / byte strings are accepted and what is written: the in-process "
-                      "correspondence (h2, guard and h1 ops: one forbidden byte class at a time in names, values and pseudo-values, "
-                      "connection-specific names, te, Content-Length syntax and repetitions, :path / :scheme / :method forms, unframed "
-                      "requests) compares the real verdict and bytes with the model's on every case, and the two black-box tiers "
-                      "(extra_stage, run on every check) compare the client outcome of every Content-Length/DATA schedule with "
-                      "data_agree; a changed fact therefore shows as a correspondence mismatch or an oracle violation")
+TRANSLATE_FALLBACK = ("a fact is soft only when the function / comparison holding it cannot be FOUND (renamed, moved); a function that is "
+                      "found and holds something else, or something not understood, fails the check. The soft ones all decide which header "
+                      "lists / byte strings are accepted and what is written, which the in-process correspondence (h2, guard, h1 ops: one "
+                      "forbidden byte class at a time in names, values and pseudo-values, connection-specific names, te, Content-Length "
+                      "syntax and repetitions, unframed requests) and the black-box tier (Content-Length / DATA schedules against "
+                      "data_agree) compare with the model on every check. Tested: for each soft fact a breaking change hidden behind a "
+                      "rename (name / pseudo-value / value byte classes, the te rule and its call, a repeated or conflicting "
+                      "content-length, Transfer-Encoding twice, the unframed-request rule as a match, the three ledger comparisons with "
+                      "renamed operands, a connection-specific name dropped) exits 1 through the correspondence or the oracle")
 
 
-def _fact(fails, what, assumed, fn):
+def _fact(fails, what, assumed, fn, hard=False):
     """fn() -> None | text of a difference.  SOFT (`unreadable:`) only when the construct cannot be found at all
     (the function is gone / renamed, no comparison of the two quantities exists); a function that is found but whose
     content is not the modelled one, or not understood, is a HARD failure (when in doubt, hard)."""
@@ -53,7 +56,7 @@ def _fact(fails, what, assumed, fn):
         if d:
             fails.append("%s: %s (the model assumes %s)" % (what, d, assumed))
     except F.Unreadable as ex:
-        if getattr(ex, "absent", False) or re.match(r"fn \w+ not found", str(ex)):
+        if not hard and (getattr(ex, "absent", False) or re.match(r"fn \w+ not found", str(ex))):
             fails.append("unreadable: %s: %s; the model assumes %s" % (what, ex, assumed))
         else:
             fails.append("%s: not the modelled construct: %s (the model assumes %s)" % (what, ex, assumed))
@@ -73,6 +76,18 @@ def _pred_fn(src, name, env=None):
     if not m:
         raise F.Unreadable("fn %s not found" % name)
     return F.eval_pred(F.fn_body(src, name), m.group(1), env)
+
+
+def _auto_env(src):
+    """name -> set of bytes, for every `fn name(x: u8) -> bool` of src that can be evaluated (a private byte predicate may be
+    renamed freely: the readers below look at what it accepts, not at what it is called)"""
+    env = {}
+    for m in re.finditer(r"\bfn\s+(\w+)\s*\(\s*\w+\s*:\s*u8\s*\)\s*->\s*bool", src):
+        try:
+            env[m.group(1)] = _pred_fn(src, m.group(1))
+        except Exception:
+            pass
+    return env
 
 
 def _slice_pred(src, name, env=None):
@@ -96,7 +111,7 @@ def translate():
     _fact(fails, "pkawa.rs is_tchar", "RFC 9110 tchar", tchar)
 
     def name_bytes():
-        meth, neg, got = _slice_pred(pk, "has_invalid_name_byte", {"is_tchar": TCHAR})
+        meth, neg, got = _slice_pred(pk, "has_invalid_name_byte", _auto_env(pk))
         bad = got if (meth == "any") != neg else set(range(256)) - got
         want = set(range(256)) - (TCHAR - set(range(65, 91)))
         return None if bad == want else "invalid name bytes differ on %r" % sorted(bad ^ want)
@@ -125,6 +140,8 @@ def translate():
         body = F.fn_body(pk, "classify_invalid_h2_header")
         for callee in ("has_invalid_name_byte", "is_connection_specific_header", "is_invalid_te_value", "classify_invalid_value_byte"):
             if not re.search(r"\b%s\s*\(" % callee, body):
+                if not re.search(r"\bfn\s+%s\b" % callee, pk):
+                    raise _absent("%s is not found (renamed?)" % callee)
                 raise F.Unreadable("no call to %s" % callee)
         if not (re.search(r"\[\s*0\s*\]\s*!=\s*b':'", body) or re.search(r"!\s*\w+\.starts_with\(\s*b\":\"\s*\)", body)
                 or re.search(r"first\(\)\s*!=\s*Some\(\s*&b':'\s*\)", body)):
@@ -168,13 +185,17 @@ def translate():
                 raise F.Unreadable("literal %r is not in handle_header" % need)
         if "b'#'" not in body or "b'/'" not in body:
             raise F.Unreadable("the '#' / leading '/' tests are not recognised")
-        if not re.search(r"\.all\(\s*\|\s*&?\s*(\w+)\s*\|\s*is_tchar\(\s*\*?\1\s*\)\s*\)", body):
+        mt = re.search(r"\.all\(\s*\|\s*&?\s*(\w+)\s*\|\s*(\w+)\(\s*\*?\1\s*\)\s*\)", body)
+        if not mt:
             raise F.Unreadable("the :method token test is not recognised")
+        if _pred_fn(pk, mt.group(2)) != TCHAR:
+            return "the :method bytes accepted differ from tchar"
         if not re.search(r"!\s*\(\s*\w+\s*\|\|\s*\(\s*\w+\s*&&\s*\w+\s*\)\s*\)", body):
             raise F.Unreadable("the :path form test `!(slash || (asterisk && options))` is not recognised")
         if not re.search(r"(\w+\s*>\s*0|0\s*<\s*\w+|\w+\s*!=\s*0)\s*&&\s*!\s*\w+", body):
             raise F.Unreadable("the END_STREAM with non-zero Content-Length test is not recognised")
-    _fact(fails, "pkawa.rs handle_header", ":scheme http|https, :path without '#', origin-form or `*` for OPTIONS, :method token, END_STREAM => length 0", pseudo_rules)
+    # handle_header is the function the harness hook names: it cannot be renamed without the build failing, so nothing here is soft
+    _fact(fails, "pkawa.rs handle_header", ":scheme http|https, :path without '#', origin-form or `*` for OPTIONS, :method token, END_STREAM => length 0", pseudo_rules, hard=True)
 
     # ---- sozu's own HTTP/1 acceptance (editor.rs)
     def guard():
@@ -184,13 +205,19 @@ def translate():
             if need not in lits:
                 raise F.Unreadable("literal %r is not in h1_framing_violation" % need)
         m = re.search(r"\.all\(\s*\|\s*&?\s*(\w+)\s*\|\s*(\w+)\(\s*\*?\1\s*\)\s*\)", body)
-        if not m or not re.search(r"\.is_empty\(\)", body):
+        if not m:
             raise F.Unreadable("the field-name test is not recognised")
+        recv = re.search(r"(\w+)\s*\.iter\(\)\s*$", body[:m.start()])
+        if not recv or not re.search(r"\b%s\s*\.is_empty\(\)" % recv.group(1), body):
+            return "an empty field name is no longer refused"
         tok = _pred_fn(ed, m.group(2))
         if tok != TCHAR:
             return "field-name bytes accepted differ from tchar on %r" % sorted(tok ^ TCHAR)
-        if "is_ascii_digit" not in body:
+        md = re.search(r"(\w+)\s*\.iter\(\)\s*\.all\(\s*(?:u8::is_ascii_digit|\|\s*&?\s*(\w+)\s*\|\s*\*?\2\.is_ascii_digit\(\))\s*\)", body)
+        if not md:
             raise F.Unreadable("the Content-Length digit test is not recognised")
+        if not re.search(r"\b%s\s*\.is_empty\(\)" % md.group(1), body):
+            return "an empty Content-Length is no longer refused"
         if not re.search(r"if\s+(\w+)\s*\|\|\s*!", body) or not re.search(r"\w+\s*=\s*true\s*;", body):
             raise F.Unreadable("the `Transfer-Encoding seen twice or not chunked` test is not recognised")
         req = F.fn_body(ed, "on_request_headers")
